@@ -510,15 +510,28 @@ def place_path(p):
 
 def apply_proj(base, pj, idx=None):
     s = base
+    absorb = False
     for e in pj:
         if e == "*":
             continue
         if isinstance(e, str):
             continue
+        if absorb and e[0] == "f":
+            absorb = False
+            continue
+        absorb = False
+        if e[0] == "d" and e[1] in ("Continue", "Break"):
+            m = _TRY_RX.match(s)
+            if m:
+                s = m.group(1) + ("?" if e[1] == "Continue" else "?!")
+                absorb = True
+                continue
         if e[0] == "f":
             # selecting a field of a known aggregate origin: project when possible
             m = None
-            if s.endswith("}") and "{" in s:
+            if s.startswith("closure:") and s.endswith("]"):
+                m = _closure_cap(s, e[1])
+            elif s.endswith("}") and "{" in s:
                 m = _agg_field(s, e[2])
             if m is not None:
                 s = m
@@ -533,6 +546,46 @@ def apply_proj(base, pj, idx=None):
         elif e[0] == "sub":
             s = s + "[%s..%s]" % (e[1], e[2])
     return s
+
+
+def _split_top(inner):
+    depth = 0
+    parts = []
+    cur = ""
+    for ch in inner:
+        if ch in "({[":
+            depth += 1
+        elif ch in ")}]":
+            depth -= 1
+        if ch == "," and depth == 0:
+            parts.append(cur.strip())
+            cur = ""
+        else:
+            cur += ch
+    if cur.strip():
+        parts.append(cur.strip())
+    return parts
+
+
+def _closure_cap(s, idx):
+    """s = closure:PATH[cap0, cap1, ...] -> capture idx."""
+    # find the '[' that matches the final ']'
+    depth = 0
+    for i in range(len(s) - 1, -1, -1):
+        ch = s[i]
+        if ch in ")}]":
+            depth += 1
+        elif ch in "({[":
+            depth -= 1
+            if depth == 0:
+                parts = _split_top(s[i + 1 : -1])
+                if 0 <= idx < len(parts):
+                    return parts[idx]
+                return None
+    return None
+
+
+_TRY_RX = re.compile(r"^<[^<>]* as std::ops::Try>::branch\((.*)\)$")
 
 
 def _agg_field(s, fname):
@@ -793,13 +846,25 @@ class OnlyIf:
 
     # ---- value predicates: True / False / frozenset(variants)
     def establishing_edges(self, lit: Lit):
-        """Set of (bb, succ, label) edges after which `lit` is known to hold."""
+        """Set of (bb, succ, label) edges after which `lit` is known to hold (least fixpoint:
+        an edge may establish lit because a tested bool was defined in a block that is itself
+        guarded by edges found in an earlier round)."""
         k = id(lit)
-        if k in self._edges:
+        if k in self._edges and k not in self._inprog:
             return self._edges[k]
         if k in self._inprog:
-            return set()
+            return self._edges.get(k, set())
         self._inprog.add(k)
+        self._edges[k] = set()
+        for _round in range(6):
+            out = self._establishing_pass(lit)
+            if out == self._edges[k]:
+                break
+            self._edges[k] = out
+        self._inprog.discard(k)
+        return self._edges[k]
+
+    def _establishing_pass(self, lit):
         out = set()
         b = self.body
         for bi in b.live_blocks():
@@ -821,8 +886,6 @@ class OnlyIf:
                     pred = ("bool", t["expected"] == "true")
                     if self.implies_op(t["cond"], pred, lit, Site(b, bi, len(b.blocks[bi]["stmts"]))):
                         out.add((bi, t["t"], "ret"))
-        self._inprog.discard(k)
-        self._edges[k] = out
         return out
 
     def _edge_pred(self, t, lab):
@@ -1035,6 +1098,12 @@ class OnlyIf:
                 vs = tbl[nm][0] if pb else tbl[nm][1]
                 if lit.place.search(args[0]) and vs <= lit.variants:
                     return True
+        # calls whose result variant is known
+        if pred[0] == "variants" and name == "std::ops::FromResidual::from_residual":
+            st = f.get("self_ty", "")
+            v = "None" if st.startswith("std::option::Option") else ("Err" if st.startswith("std::result::Result") else None)
+            if v is not None and v not in pred[1]:
+                return True
         # transparent: value is arg0
         if name in TRANSPARENT_CALLS and node["args"]:
             if self.implies_op(node["args"][0], pred, lit, site):
@@ -1052,12 +1121,7 @@ class OnlyIf:
     # ---- guardedness
     def guarded_block(self, bb, lit):
         """Block bb is reachable only after an edge establishing lit."""
-        k = id(lit)
-        if k in self._inprog:
-            # being computed: use what is known so far (conservative)
-            edges = self._edges.get(k, set())
-        else:
-            edges = self.establishing_edges(lit)
+        edges = self.establishing_edges(lit)
         if not edges:
             return False
         reach = self.body.reachable(0, "normal", cut_edges=edges)
